@@ -77,7 +77,9 @@ def run(spec):
     V = Viol()
     d = spec['tree']
     p = T(spec['path'])
-    v = ('V', spec['v'])
+    # the value written: a scalar-like marker, or (a third of the cases) a dictionary - which replaces whatever
+    # dictionary already sits at the path
+    v = {'vk': spec['v']} if spec['v'] % 3 == 0 else ('V', spec['v'])
     lv = leaves(d)
     stats = {}
 
